@@ -370,7 +370,7 @@ func cmdCheck(args []string) int {
 
 	// replay files and report lines
 	exit := 0
-	replayDir := filepath.Join(eng.verif, "replays", prop)
+	replayDir := filepath.Join(outDir(eng), "replays", prop)
 	for _, name := range violations {
 		os.MkdirAll(replayDir, 0o755)
 		s := sums[name]
@@ -480,9 +480,9 @@ func cmdCheck(args []string) int {
 		"property_id": prop, "tier": tier, "seed": seed, "level": level, "coverage": cov,
 		"assumptions": pm.Assumptions, "wall_s": round2(time.Since(t0).Seconds()), "violations": len(violations) + len(boundedViol),
 	}
-	os.MkdirAll(filepath.Join(eng.verif, "evidence"), 0o755)
+	os.MkdirAll(filepath.Join(outDir(eng), "evidence"), 0o755)
 	data, _ := json.MarshalIndent(ev, "", " ")
-	os.WriteFile(filepath.Join(eng.verif, "evidence", prop+".json"), data, 0o644)
+	os.WriteFile(filepath.Join(outDir(eng), "evidence", prop+".json"), data, 0o644)
 	fmt.Printf("%s %s: obligations=%d discharged=%d known-findings=%d violations=%d degraded=%d wall=%.1fs\n", prop, tier, nObl, nDis, len(knownHit), len(violations)+len(boundedViol), len(degraded), time.Since(t0).Seconds())
 	return exit
 }
